@@ -24,7 +24,8 @@ RULE = ("explicit-state search over ALL programs of <=3 statements (thorough: "
         "sets, memberships and Sequence.jobs lists are compared after every "
         "statement; KeyError expected exactly when removing an absent "
         "requirement/member. non-trivial = programs of >=2 statements; "
-        "distinct = distinct canonical states reached")
+        "distinct = distinct canonical states reached (documented state plus "
+        "the identity partition of the real objects' lists and sets)")
 
 NJ = 4
 J = [('j', i) for i in range(NJ)]
@@ -299,6 +300,17 @@ class Real:
     def name(self, job):
         return self.names.get(job, ('?', repr(job)))
 
+    def alias_sig(self):
+        """which mutable containers of the real objects are one and the same
+        object: part of the search's deduplication key, because two programs
+        that reach the same documented state but share a list or a set
+        between two objects do not have the same futures (C19-w6m2)"""
+        conts = [j.required for _, j in sorted(self.jobs.items())]
+        conts += [self.scheds[s].jobs for s in (0, 1)]
+        conts += [q.jobs for q in self.seqs]
+        first = {}
+        return tuple(first.setdefault(id(c), i) for i, c in enumerate(conts))
+
     def state(self):
         return (tuple(sorted((k, tuple(sorted(self.name(r) for r in
                                               j.required)))
@@ -398,6 +410,7 @@ def run_program(prog):
             msgs.append("after %s: %s" % (show(st), '; '.join(what)))
             stopped = True
             break
+    model.alias = real.alias_sig()
     return msgs, model, stopped
 
 
@@ -411,7 +424,7 @@ def search(first, depth, res, reduced_after):
     if stopped:
         res['states'] += 1
         return
-    seen = {model.state()}
+    seen = {(model.state(), model.alias)}
     frontier = collections.deque([prog0])
     while frontier and not res.get('abort'):
         prog = frontier.popleft()
@@ -429,7 +442,7 @@ def search(first, depth, res, reduced_after):
             report(res, msgs, p2)
             if stopped:
                 continue
-            k = m2.state()
+            k = (m2.state(), m2.alias)
             if k not in seen:
                 seen.add(k)
                 frontier.append(p2)
